@@ -231,3 +231,9 @@ package satisfaction
 //@ func (*SatisfactionBiasListener).getMethodParams
 //@   property C07 C13 C15 C18
 //@   ensures [listener_of_the_requests_level_source] pParams.Function in a.satisfactionLevelsUpdateListeners.Listeners && result0 == a.satisfactionLevelsUpdateListeners.Listeners[pParams.Function]
+
+// the parameter schema listed for this method is that of its parameter struct
+//@ func (*Satisfaction).MethodParameters
+//@   property C20
+//@   nopanic
+//@   ensures [schema_of_the_methods_parameters] typeis(result, SatisfactionParameters)
